@@ -29,7 +29,7 @@ def one(name):
         meta['checker_errors_without_violation'] = errors
         meta['first_report'] = first
         json.dump(meta, open(os.path.join(d, 'meta.json'), 'w'), indent=1)
-        return name, meta['breaks_property'], fired, errors, first
+        return name, meta.get('breaks_property'), fired, errors, first
     finally:
         shutil.rmtree(tmp, ignore_errors=True)
 
@@ -45,14 +45,30 @@ lines = ['# Seeded changes and the checks that catch them', '',
          'green, demo fails with / passes without the change). `target` = the check of the property the change was written against.', '',
          '| change | breaks | caught by its target check | all checks that fire | checks erroring without a verdict |', '|---|---|---|---|---|']
 miss = 0
+false_alarms = 0
+nb = 0
 for name, pid, fired, errors, first in res:
+    if pid is None:
+        continue
+    nb += 1
     ok = pid in fired
     miss += 0 if ok else 1
     lines.append('| %s | %s | %s | %s | %s |' % (name, pid, 'yes' if ok else '**NO**', ' '.join(fired), ' '.join(errors)))
-lines += ['', '%d changes, %d missed by their target check.' % (len(res), miss), '']
+lines += ['', '%d breaking changes, %d missed by their target check.' % (nb, miss), '']
+lines += ['## Behaviour-preserving refactorings (every check must stay silent)', '',
+          'Written by sub-agents asked to restructure one part of the library without changing behaviour for any input; each is',
+          'confirmed by the existing suite and by a differential test (hash of outcomes over 10^5-10^6 inputs, captured on the',
+          'unmodified tree).', '', '| refactoring | checks reporting (false alarms) | checks erroring |', '|---|---|---|']
+for name, pid, fired, errors, first in res:
+    if pid is not None:
+        continue
+    false_alarms += len(fired) + len(errors)
+    lines.append('| %s | %s | %s |' % (name, ' '.join(fired) or 'none', ' '.join(errors) or 'none'))
+lines += ['', '%d false alarms.' % false_alarms, '']
 lines.append('## First report of the target check')
 for name, pid, fired, errors, first in res:
-    lines.append('* %s: %s' % (name, first.get(pid, '(none)')))
+    if pid is not None:
+        lines.append('* %s: %s' % (name, first.get(pid, '(none)')))
 if len(sys.argv) == 1:
     open(os.path.join(V, 'seeded', 'RESULTS.md'), 'w').write('\n'.join(lines) + '\n')
-print('\n'.join(lines[7:7 + len(res) + 3]))
+print('\n'.join(l for l in lines if l.startswith('|') or 'missed' in l or 'false alarms' in l))
